@@ -1,7 +1,199 @@
-(* props/C19.v — placeholder while the invariance lemmas are being closed. *)
-From Coq Require Import List NArith ZArith String.
+(* props/C19.v — verdicts and Jobs are invariant under presentation changes.
+
+   Models: Json.v ([assoc], [jget] = dict.get), Parse.v ([parse_kind] / [parse_cls]), Validators.v
+   ([pre_hook], [post_hook]), Accept.v ([decode_job], [decode_env]), ScopeWalk.v ([prevalidate]),
+   Lexer.v ([lex] = TokenStream: whitespace normalisation + tokenisation), FormatStr.v.
+   Proofs: KeyOrder.v, LexerProofs.v, FormatStrProofs.v.
+
+   C19_yaml is not a theorem (JSON / YAML parsers are outside the model; the harness checks that
+   both yield equal objects).  C19_rename is NOT stated here: invariance under injective renaming
+   is covered by the metamorphic correspondence of harness/c19.py only. *)
+From Coq Require Import List NArith ZArith Bool String Permutation.
 Import ListNotations.
-Require Import OJD.Base OJD.Json OJD.Schema OJD.Generated.
+Require Import OJD.Base OJD.Lexer OJD.Json OJD.Schema OJD.Generated OJD.FormatStr OJD.FormatStrSpec
+               OJD.FormatStrProofs OJD.CreateJob OJD.Parse OJD.Validators OJD.Accept OJD.ScopeWalk
+               OJD.KeyOrder OJD.LexerProofs.
 Local Open Scope string_scope.
-Example C19_schema_has_root : match lookup_cls Generated.schema "JobTemplate" with Some _ => True | None => False end.
-Proof. vm_compute. exact I. Qed.
+Local Open Scope list_scope.
+
+(* ------------------------------------------------------------------ key order *)
+
+(* dict lookup does not depend on the order of distinct keys *)
+Theorem C19_assoc_perm : forall (A : Type) (ms ms' : list (str * A)),
+  NoDup (map fst ms) -> Permutation ms ms' -> forall k, assoc k ms = assoc k ms'.
+Proof. exact assoc_perm. Qed.
+Print Assumptions C19_assoc_perm.
+
+Theorem C19_jget_perm : forall ms ms', NoDup (map fst ms) -> Permutation ms ms' ->
+  forall name, jget name (JObj ms) = jget name (JObj ms').
+Proof. exact jget_perm. Qed.
+Print Assumptions C19_jget_perm.
+
+(* the structural layer: permuting the members of the object handed to a class changes NOTHING —
+   same verdict, same coerced value (fields are produced in the model's declaration order) — for
+   any schema, fuel and hooks that do not distinguish the two raw objects.  Exact equality: also for
+   classes with dictionary-valued fields (a DictOf field keeps the member order of ITS OWN value,
+   which is not permuted here). *)
+Theorem C19_parse_cls_key_order : forall SC classify pre post ms ms',
+  NoDup (map fst ms) -> Permutation ms ms' ->
+  forall fuel c,
+  pre c (JObj ms) = pre c (JObj ms') ->
+  (forall fs, post c (JObj ms) fs = post c (JObj ms') fs) ->
+  parse_cls SC classify pre post fuel c (JObj ms) = parse_cls SC classify pre post fuel c (JObj ms').
+Proof. exact parse_cls_perm. Qed.
+Print Assumptions C19_parse_cls_key_order.
+
+(* the repo-side hooks do not distinguish them: pre validators read the raw object through
+   dict.get only; post validators of all classes but the two roots do not read it; the roots run the
+   C03 walker, which (C03_exact) reads the root through dict.get only *)
+Theorem C19_hooks_key_order : forall classify ms ms', NoDup (map fst ms) -> Permutation ms ms' ->
+  forall c, pre_hook c (JObj ms) = pre_hook c (JObj ms') /\
+            forall fs, post_hook classify c (JObj ms) fs = post_hook classify c (JObj ms') fs.
+Proof. exact hooks_key_order. Qed.
+Print Assumptions C19_hooks_key_order.
+
+Theorem C19_post_hook_raw_free : forall classify c raw raw' fs,
+  c <> "JobTemplate" -> c <> "EnvironmentTemplate" ->
+  post_hook classify c raw fs = post_hook classify c raw' fs.
+Proof. exact post_hook_raw_free. Qed.
+Print Assumptions C19_post_hook_raw_free.
+
+(* hence, with the real hooks: an object ANYWHERE in a document (it reaches the parser as the value
+   of some field, list item, union alternative or dictionary member, at some kind and fuel) can
+   have its keys reordered without changing what the parser returns for it *)
+Theorem C19_key_order_any_object : forall classify ms ms', NoDup (map fst ms) -> Permutation ms ms' ->
+  forall SC fuel k,
+  parse_kind SC classify pre_hook (post_hook classify) fuel k (JObj ms)
+  = parse_kind SC classify pre_hook (post_hook classify) fuel k (JObj ms').
+Proof. exact parse_kind_real_perm. Qed.
+Print Assumptions C19_key_order_any_object.
+
+(* ... and the decode verdict (with the decoded model) under a permutation of the root's keys,
+   including the version dispatch and the fuel computed from the document *)
+Theorem C19_decode_key_order : forall classify ms ms', NoDup (map fst ms) -> Permutation ms ms' ->
+  decode_job classify (JObj ms) = decode_job classify (JObj ms') /\
+  decode_env classify (JObj ms) = decode_env classify (JObj ms').
+Proof.
+  intros classify ms ms' Hnd Hp. split; [apply decode_job_perm|apply decode_env_perm]; assumption.
+Qed.
+Print Assumptions C19_decode_key_order.
+
+(* the C03 walker on the root *)
+Theorem C19_walker_key_order : forall refs ms ms', NoDup (map fst ms) -> Permutation ms ms' ->
+  prevalidate Generated.schema refs "JobTemplate" (JObj ms) = prevalidate Generated.schema refs "JobTemplate" (JObj ms') /\
+  prevalidate Generated.schema refs "EnvironmentTemplate" (JObj ms)
+  = prevalidate Generated.schema refs "EnvironmentTemplate" (JObj ms').
+Proof. exact prevalidate_perm. Qed.
+Print Assumptions C19_walker_key_order.
+
+(* C19_key_order, full statement (NOT proved as one theorem):
+     json_perm j j' -> decode_job classify j = decode_job classify j'   up to the member order of
+     dictionary-valued fields (Environment.variables),
+   where json_perm permutes the members of EVERY object of the document simultaneously.
+   Proved: one object at a time — the root (C19_decode_key_order) and, for a nested object, the
+   parser's result on THAT object (C19_key_order_any_object).  Missing: the congruence step for a
+   nested object, because the hooks of the ENCLOSING classes read raw sub-values (pre_hook looks
+   at the constructors of range items; the root's post_hook walks the whole raw document); it
+   needs "hooks are invariant under json_perm of sub-values", i.e. C03_exact applied under a
+   json_perm-congruence of the specification.  The harness permutes keys at every level. *)
+
+(* ------------------------------------------------------------------ blanks *)
+
+(* TokenStream: the token list depends only on where the runs of blanks are.  [b], [b'] range over
+   the characters of class \s of the run's class table; no premise on the table. *)
+Theorem C19_blanks : forall classify b b', classify b = CSpace -> classify b' = CSpace ->
+  (forall s, lex classify (b :: s) = lex classify s) /\
+  (forall s, lex classify (s ++ [b]) = lex classify s) /\
+  (forall s1 s2, lex classify (s1 ++ b :: b' :: s2) = lex classify (s1 ++ b :: s2)) /\
+  (forall s1 s2, lex classify (s1 ++ b :: s2) = lex classify (s1 ++ b' :: s2)).
+Proof.
+  intros classify b b' Hb Hb'. repeat split; intros.
+  - apply lex_leading_blank. exact Hb.
+  - apply lex_trailing_blank. exact Hb.
+  - apply lex_blank_run; assumption.
+  - apply lex_blank_kind; assumption.
+Qed.
+Print Assumptions C19_blanks.
+
+(* blanks around single-character tokens ( . * ( ) , - : ) are immaterial: "1 - 5" = "1-5",
+   "A * B" = "A*B", "Param . X" = "Param.X" *)
+Theorem C19_blanks_around_punct : forall classify b c, classify b = CSpace -> is_punct classify c = true ->
+  (forall s1 s2, lex classify (s1 ++ b :: c :: s2) = lex classify (s1 ++ c :: s2)) /\
+  (forall s1 s2, lex classify (s1 ++ c :: b :: s2) = lex classify (s1 ++ c :: s2)).
+Proof.
+  intros classify b c Hb Hc. split; intros.
+  - apply lex_blank_before_punct; assumption.
+  - apply lex_blank_after_punct; assumption.
+Qed.
+Print Assumptions C19_blanks_around_punct.
+
+(* every parser front end sees the tokens only *)
+Theorem C19_lex_for_cong : forall classify kinds s s', lex classify s = lex classify s' ->
+  lex_for classify kinds s = lex_for classify kinds s'.
+Proof. exact lex_for_cong. Qed.
+Print Assumptions C19_lex_for_cong.
+
+(* inside '{{ }}': the parsed name of a reference is its text with the blanks removed (C16) *)
+Theorem C19_reference_name_ignores_blanks : forall classify,
+  (forall c, is_dot classify c = true -> c = dotc) ->
+  forall e, norm classify e = filter (fun c => negb (is_blank classify c)) e.
+Proof. exact norm_blanks_removed. Qed.
+Print Assumptions C19_reference_name_ignores_blanks.
+
+Theorem C19_reference_spans : forall classify, ascii_ok classify = true -> forall s f,
+  mk classify s = Ok f ->
+  exists segs last, Decomp classify s segs last /\
+    expressions f = spec_exprs classify 0 segs /\
+    Forall2 (fun le x => fst (fst x) = norm classify (snd le) /\
+                         slice s (snd (fst x)) (snd x) = open2 ++ snd le ++ close2)
+            segs (expressions f).
+Proof. exact mk_spans. Qed.
+Print Assumptions C19_reference_spans.
+
+(* ------------------------------------------------------------------ non-vacuity *)
+Definition js (x : string) : json := JStr (str_of_string x).
+Definition jm (l : list (string * json)) : list (str * json) := map (fun kv => (str_of_string (fst kv), snd kv)) l.
+
+Definition step_ok : json :=
+  JObj (jm [("name", js "A"); ("script", JObj (jm [("actions", JObj (jm [("onRun", JObj (jm [("command", js "run")]))]))]))]).
+Definition root1 : list (str * json) :=
+  jm [("specificationVersion", js "jobtemplate-2023-09"); ("name", js "Job {{Param.P}}");
+      ("parameterDefinitions", JArr [JObj (jm [("name", js "P"); ("type", js "INT")])]);
+      ("steps", JArr [step_ok])].
+Definition root2 : list (str * json) :=
+  jm [("steps", JArr [step_ok]);
+      ("parameterDefinitions", JArr [JObj (jm [("name", js "P"); ("type", js "INT")])]);
+      ("name", js "Job {{Param.P}}"); ("specificationVersion", js "jobtemplate-2023-09")].
+
+Example C19_key_order_nonvacuous :
+  NoDup (map fst root1) /\ Permutation root1 root2 /\ root1 <> root2 /\
+  is_ok (decode_job ascii_class (JObj root1)) = true /\
+  decode_job ascii_class (JObj root1) = decode_job ascii_class (JObj root2).
+Proof.
+  assert (Hnd : NoDup (map fst root1)).
+  { repeat (constructor; [cbn; intros H; repeat (destruct H as [H|H]; [discriminate H|]); exact H|]). constructor. }
+  assert (Hp : Permutation root1 root2).
+  { unfold root1, root2. cbn [jm map].
+    eapply perm_trans; [apply Permutation_rev|]. cbn [rev app]. apply Permutation_refl. }
+  split; [exact Hnd|]. split; [exact Hp|]. split; [discriminate|]. split; [vm_compute; reflexivity|].
+  apply decode_job_perm; assumption.
+Qed.
+
+(* the NoDup premise is necessary for assoc: with a duplicated key the first one wins *)
+Example C19_assoc_dup_counterexample :
+  exists ms ms' : list (str * nat), Permutation ms ms' /\ assoc $"k" ms <> assoc $"k" ms'.
+Proof.
+  exists [($"k", 1); ($"k", 2)], [($"k", 2); ($"k", 1)]. split; [apply perm_swap|].
+  vm_compute. discriminate.
+Qed.
+
+Local Open Scope N_scope.
+(* "\tParam .  X " and "Param.X": tab (9) and space (32) are blanks of the ASCII table *)
+Example C19_blanks_nonvacuous :
+  ascii_class 9 = CSpace /\ ascii_class 32 = CSpace /\ is_punct ascii_class 46 = true /\
+  lex ascii_class [9; 80;97;114;97;109; 32; 46; 32;32; 88; 32]
+  = lex ascii_class [80;97;114;97;109; 46; 88] /\
+  lex ascii_class [80;97;114;97;109; 46; 88] = Ok [TName [80;97;114;97;109]; TDot; TName [88]] /\
+  (* a blank INSIDE a name is a different token list: blanks matter only as separators *)
+  lex ascii_class [80;97; 32; 114;97;109; 46; 88] <> lex ascii_class [80;97;114;97;109; 46; 88].
+Proof. vm_compute. repeat split. discriminate. Qed.
